@@ -888,17 +888,35 @@ func main() {
 	// reported; a failure that does not reproduce with the same signature is a harness error.
 	known := loadKnown()
 	confirmed := map[string]bool{}
+	unreproduced := map[string]bool{}
+	var firstUnrep string
 	for _, v := range viols {
-		if known(v.Sig) || confirmed[v.Sig] || len(confirmed) >= 12 {
+		if known(v.Sig) || confirmed[v.Sig] || unreproduced[v.Sig] || len(confirmed) >= 12 {
+			continue
+		}
+		if !reproduces(dir, v.viol) {
+			unreproduced[v.Sig] = true
+			if firstUnrep == "" {
+				firstUnrep = fmt.Sprintf("violation %q on input %s (%s) did not reproduce in a fresh process: %s", v.Sig, v.Tag, v.Hex, v.What)
+			}
 			continue
 		}
 		confirmed[v.Sig] = true
-		if !reproduces(dir, v.viol) {
+	}
+	// A failure that does not reproduce is a harness error when it is all there is. When other violations of the
+	// same run do reproduce (a tree that mis-decodes its input can behave differently from run to run), the
+	// unreproduced signatures are dropped and named in a note, and the reproduced ones are reported.
+	if firstUnrep != "" {
+		if len(confirmed) == 0 {
 			os.RemoveAll(dir)
-			fw.Fatalf("violation %q on input %s (%s) did not reproduce in a fresh process: %s", v.Sig, v.Tag, v.Hex, v.What)
+			fw.Fatalf("%s", firstUnrep)
 		}
+		run.Note("%d signature(s) dropped because they did not reproduce in a fresh process; first: %s", len(unreproduced), firstUnrep)
 	}
 	for _, v := range viols {
+		if unreproduced[v.Sig] {
+			continue
+		}
 		run.Violation(v.Sig, v.What+" [input "+v.Tag+"]", map[string]any{"hex": v.Hex, "fs": v.FS, "tag": v.Tag, "valid": v.Valid, "req": v.Req, "argsets": v.Args, "ref": v.Ref, "reject": v.Rej, "expectf": v.ExpF, "expectv": v.ExpV})
 	}
 
